@@ -48,6 +48,8 @@ Local Open Scope nat_scope.
                                   + and *, no under/overflow): |fl(pardot) - exact| <= ((1+u)^(len+t+1) - 1) sum|v_i w_i|,
                                   the sequential dot with exponent len+1, hence the two agree "up to reassociation";
                                   so does every interleaved execution.  (Round one: searched only.)
+     pardot_forward_error_tight   the same with the exponent (longest chunk) + t + 1, about len/t + t: the threaded
+                                  product has the SMALLER worst-case bound (blocked summation)
      sched_exact, sched_exact_float   over a ring / on exactly summable binary64 data every maximal execution returns
                                   the sequential dot (bit for bit).
    --------------------------------------------------------------------------------------------------------------- *)
@@ -352,6 +354,24 @@ Example pardot_forward_error_nonvacuous :
   (forall x y : R, exists d : R, (Rabs d <= / 2)%R /\ ((x + y) * (1 + / 4))%R = ((x + y) * (1 + d))%R) /\
   (forall x y : R, exists d : R, (Rabs d <= / 2)%R /\ (x * y * (1 + / 4))%R = (x * y * (1 + d))%R).
 Proof. exact std_model_example. Qed.
+
+Theorem pardot_forward_error_tight : forall (u : R), (0 <= u <= 1)%R -> forall fadd fsub fmul fdiv : R -> R -> R,
+  (forall x y : R, exists d : R, (Rabs d <= u)%R /\ fadd x y = ((x + y) * (1 + d))%R) ->
+  (forall x y : R, exists d : R, (Rabs d <= u)%R /\ fmul x y = (x * y * (1 + d))%R) ->
+  forall (t : nat) (v w : list R), 1 <= t -> length v = length w ->
+  exists r : R, pardot (A := ARnd fadd fsub fmul fdiv) t v w = Ok r /\
+    (Rabs (r - dot_raw (A := AR) v w)
+     <= ((1 + u) ^ ((length v - (t - 1) * (length v / t)) + t + 1) - 1) * dot_raw (A := AR) (map Rabs v) (map Rabs w))%R.
+Proof. intros u Hu fadd fsub fmul fdiv Hadd Hmul t v w Ht Hl. exact (pardot_forward_error_tight_ex u Hu fadd fsub fmul fdiv Hadd Hmul t v w Ht Hl). Qed.
+Check pardot_forward_error_tight : forall (u : R), (0 <= u <= 1)%R -> forall fadd fsub fmul fdiv : R -> R -> R,
+  (forall x y : R, exists d : R, (Rabs d <= u)%R /\ fadd x y = ((x + y) * (1 + d))%R) ->
+  (forall x y : R, exists d : R, (Rabs d <= u)%R /\ fmul x y = (x * y * (1 + d))%R) ->
+  forall (t : nat) (v w : list R), 1 <= t -> length v = length w ->
+  exists r : R, pardot (A := ARnd fadd fsub fmul fdiv) t v w = Ok r /\
+    (Rabs (r - dot_raw (A := AR) v w)
+     <= ((1 + u) ^ ((length v - (t - 1) * (length v / t)) + t + 1) - 1) * dot_raw (A := AR) (map Rabs v) (map Rabs w))%R.
+Print Assumptions pardot_forward_error_tight.
+Print Assumptions audit_separator.
 
 Theorem dot_forward_error : forall (u : R), (0 <= u <= 1)%R -> forall fadd fsub fmul fdiv : R -> R -> R,
   (forall x y : R, exists d : R, (Rabs d <= u)%R /\ fadd x y = ((x + y) * (1 + d))%R) ->
